@@ -1,6 +1,7 @@
 SPECIFICATION LSpec
 CONSTANTS
   MaxRank = 2
+  Variant = "none"
   MaxChain = 0
   MaxIters = {4}
   MaxFuns = {8}
